@@ -28,6 +28,7 @@ def describe(universe):
             "has_own_table": bool(e.has_own_table),
             "view_of": getattr(e.implied_union_target, "name", None),
             "spatial": getattr(e.spatial, "name", None),
+            "temporal": getattr(e.temporal, "name", None),
             "pk_str": (e.primaryKey.getPythonType() is str) if e.name in universe.dimensions.names else None,
         })
     fams = {}
@@ -103,13 +104,37 @@ class Conv:
         return int(x)
 
 
+TS_BASE = 1577836800000000000      # 2020-01-01T00:00:00 TAI in nanoseconds (TimeConverter.astropy_to_nsec)
+TS_UNIT = 10 ** 9
+
+
+def mk_timespan(ts):
+    """[b, e) in seconds after TS_BASE -> Timespan"""
+    from lsst.daf.butler import Timespan
+    if ts is None:
+        return None
+    return Timespan(None, None, _nsec=(TS_BASE + int(ts[0]) * TS_UNIT, TS_BASE + int(ts[1]) * TS_UNIT))
+
+
+def ts_from_nsec(b, e):
+    if b is None and e is None:
+        return None
+    if b is None or e is None:
+        return [-999, -999]
+    qb, rb = divmod(int(b) - TS_BASE, TS_UNIT)
+    qe, re_ = divmod(int(e) - TS_BASE, TS_UNIT)
+    if rb or re_:
+        return [-998, -998]
+    return [qb, qe]
+
+
 def extra_fields(element, rec):
     if element == "skymap":
         return {"hash": ("h%d" % rec["skymap"]).encode().ljust(8, b"_"), "tract_max": 50, "patch_nx_max": 50, "patch_ny_max": 50}
     return {}
 
 
-def make_record(universe, conv, element, vals, region):
+def make_record(universe, conv, element, vals, region, ts=None):
     e = universe[element]
     d = {}
     for dim, col in zip(e.required.names, e.schema.required.names):
@@ -119,6 +144,10 @@ def make_record(universe, conv, element, vals, region):
     d.update(extra_fields(element, vals))
     if e.spatial is not None:
         d["region"] = region
+    if e.temporal is not None:
+        d["timespan"] = mk_timespan(ts)
+    elif ts is not None:
+        raise ValueError("timespan given for a non-temporal element")
     return e.RecordClass(**d)
 
 
@@ -144,7 +173,7 @@ def apply_op(butler, universe, conv, objs, o):
     reg = butler.registry
     region = objs[o["rid"]] if o.get("rid") is not None else None
     try:
-        rec = make_record(universe, conv, o["e"], o["vals"], region)
+        rec = make_record(universe, conv, o["e"], o["vals"], region, o.get("ts"))
     except Exception as exc:  # noqa: BLE001
         return "badrec:" + type(exc).__name__
     k = o["k"]
@@ -182,17 +211,18 @@ def dump(root, universe, conv, objs):
         if e.name in universe.skypix_dimensions.names or not e.has_own_table:
             continue
         colmap = list(zip(e.required.names, e.schema.required.names)) + [(d, d) for d in e.implied.names]
-        sel = ", ".join(f'"{c}"' for _, c in colmap) + (', "region"' if e.spatial is not None else "")
+        sel = ", ".join(f'"{c}"' for _, c in colmap) + (', "region"' if e.spatial is not None else ", NULL") \
+            + (', "timespan_begin", "timespan_end"' if e.temporal is not None else ", NULL, NULL")
         rows = []
         for row in con.execute(f'SELECT {sel} FROM "{e.name}"').fetchall():
             vals = [conv.from_impl(d, x) for (d, _), x in zip(colmap, row)]
             rid = None
-            if e.spatial is not None and row[-1] is not None:
-                raw = row[-1]
+            if e.spatial is not None and row[-3] is not None:
+                raw = row[-3]
                 if isinstance(raw, bytes):
                     raw = raw.decode()
                 rid = enc.get(raw, -1)
-            rows.append([vals, rid])
+            rows.append([vals, rid, ts_from_nsec(row[-2], row[-1])])
         tables[e.name] = rows
         if e.spatial is not None:
             cols = ", ".join(f'"{d}"' for d in e.required.names)
@@ -240,6 +270,24 @@ def run_queries(butler, universe, conv, objs, groups):
     return res
 
 
+def temporal_joins(butler, universe):
+    """explicit `a.timespan OVERLAPS b.timespan` between every pair of temporal elements: accepted ('rows') or error class"""
+    out = []
+    tel = [e.name for e in universe.elements if e.temporal is not None and e.name not in universe.skypix_dimensions.names]
+    for a in tel:
+        for b2 in tel:
+            if a >= b2:
+                continue
+            names = sorted(set(universe[a].minimal_group.names) | set(universe[b2].minimal_group.names))
+            try:
+                with butler.query() as q:
+                    list(q.where(f"{a}.timespan OVERLAPS {b2}.timespan").data_ids(names))
+                out.append([a, b2, "rows"])
+            except Exception as exc:  # noqa: BLE001
+                out.append([a, b2, classify(exc)])
+    return out
+
+
 def records_via_query(butler, universe, conv, objs):
     """Butler.query_dimension_records for every element with a table: (key+implied values, region id)"""
     out = {}
@@ -259,7 +307,10 @@ def records_via_query(butler, universe, conv, objs):
             rid = None
             if e.spatial is not None and r.region is not None:
                 rid = next((k for k, x in objs.items() if x == r.region), -1)
-            rows.append([vals, rid])
+            ts = None
+            if e.temporal is not None and r.timespan is not None:
+                ts = ts_from_nsec(*r.timespan.nsec) if hasattr(r.timespan, "nsec") else ts_from_nsec(r.timespan._nsec[0], r.timespan._nsec[1])
+            rows.append([vals, rid, ts])
         out[e.name] = {"rows": rows}
     return out
 
@@ -284,6 +335,8 @@ def run_population(payload):
             ho["queries"] = run_queries(butler, universe, conv, objs, h.get("groups", payload["groups"]))
             if payload.get("records_query", True):
                 ho["records"] = records_via_query(butler, universe, conv, objs)
+            if payload.get("temporal_joins") and "tjoins" not in out:
+                out["tjoins"] = temporal_joins(butler, universe)
         except Exception as exc:  # noqa: BLE001
             ho["fatal"] = type(exc).__name__ + ": " + str(exc)[:300] + " | " + traceback.format_exc()[-600:]
         finally:
@@ -291,3 +344,102 @@ def run_population(payload):
                 fixture.cleanup(root)
         out["histories"].append(ho)
     return out
+
+
+# ------------------------------------------------------------------------------------------------------------
+# history shrinker: greedy removal of operations, re-running the IMPLEMENTATION on a fresh repository every time
+# ------------------------------------------------------------------------------------------------------------
+def _still_fails(payload, ops):
+    """Run `ops` on a fresh repository and evaluate the failure predicate of payload['kind'] on what the implementation
+    did; every predicate is self-contained (it compares the implementation with a brute-force evaluation over the
+    records the implementation itself stored), so it keeps its meaning when operations are removed."""
+    from harness.props.c06 import Meta, expected_rows, flat, norm
+    root = None
+    try:
+        root, butler = fixture.make_repo()
+        universe = butler.dimensions
+        conv = Conv(universe)
+        objs, geom = geometry(universe, payload["regions"])
+        for o in ops:
+            apply_op(butler, universe, conv, objs, o)
+        tables, overlaps = dump(root, universe, conv, objs)
+        kind = payload["kind"]
+        if kind == "overlap":
+            e = payload["element"]
+            req = len(universe[e].required.names)
+            want = sorted({tuple(r[0][:req]) + (p,) for r in tables.get(e, []) if r[1] is not None and r[1] >= 0
+                           for p in geom["env"][str(r[1])]})
+            got = sorted({tuple(r[0]) + (r[1],) for r in overlaps.get(e, [])})
+            return got != want
+        meta = Meta(describe(universe))
+        P = {e: [(dict(zip(meta.cols(e), r[0])), r[1], r[2]) for r in tables.get(e, [])] for e in meta.el if e in tables}
+        for e in meta.el:
+            P.setdefault(e, [])
+        if kind in ("raises", "rows"):
+            q = run_queries(butler, universe, conv, objs, [payload["group"]["names"]])[0]
+            api = payload.get("api", "new")
+            if kind == "raises":
+                return api + "_err" in q
+            if api + "_err" in q:
+                return False
+            return norm(q[api]) != norm(expected_rows(meta, payload["group"], P, geom["ov_exact"]))
+        if kind == "records":
+            e = payload["element"]
+            rq = records_via_query(butler, universe, conv, objs).get(e, {})
+            if "rows" not in rq:
+                return True
+            eg = payload["group"]
+            ok = {tuple(x[eg["names"].index(k)] for k in meta.cols(e)) for x in expected_rows(meta, eg, P, geom["ov_exact"])}
+            stored = norm([flat(r) for r in tables.get(e, [])])
+            return norm([flat(r) for r in rq["rows"]]) != [x for x in stored if tuple(x[:-3]) in ok]
+        return False
+    finally:
+        if root:
+            fixture.cleanup(root)
+
+
+def shrink(payload):
+    """payload: {regions, ops, kind, element|group, api, budget_s} -> {ops, trials, reproduced}"""
+    import time
+    t0 = time.time()
+    budget = payload.get("budget_s", 100)
+    ops = list(payload["ops"])
+    trials = 1
+    try:
+        if not _still_fails(payload, ops):
+            return {"reproduced": False, "ops": ops, "trials": trials}
+    except Exception as exc:  # noqa: BLE001
+        return {"reproduced": False, "ops": ops, "trials": trials, "error": type(exc).__name__ + ": " + str(exc)[:200]}
+    changed = True
+    while changed and time.time() - t0 < budget:
+        changed = False
+        # first whole chunks (all operations on one element, latest elements first), then single operations from the end
+        chunks = []
+        for e in dict.fromkeys(o["e"] for o in reversed(ops)):
+            idx = [i for i, o in enumerate(ops) if o["e"] == e]
+            if len(idx) > 1:
+                chunks.append(idx)
+        for idx in chunks:
+            if time.time() - t0 > budget:
+                break
+            trial = [o for i, o in enumerate(ops) if i not in set(idx)]
+            trials += 1
+            try:
+                if _still_fails(payload, trial):
+                    ops, changed = trial, True
+                    break
+            except Exception:  # noqa: BLE001
+                pass
+        if changed:
+            continue
+        i = len(ops) - 1
+        while i >= 0 and time.time() - t0 < budget:
+            trial = ops[:i] + ops[i + 1:]
+            trials += 1
+            try:
+                if _still_fails(payload, trial):
+                    ops, changed = trial, True
+            except Exception:  # noqa: BLE001
+                pass
+            i -= 1
+    return {"reproduced": True, "ops": ops, "trials": trials, "seconds": round(time.time() - t0, 1)}
